@@ -23,15 +23,17 @@ def build(ctx):
     return w
 
 
-def claim(n, consumer, target=1, gen='int'):
+def claim(n, consumer, target=1, gen='int', project='proj'):
     def fn(ctx, w):
         return app.call('PUT', '/allocations/' + CONS(consumer), {
             'allocations': {U(target): {'resources': {
                 'VCPU': ctx.int('amt%d' % n, 1)}}},
-            'project_id': 'proj', 'user_id': 'user',
+            'project_id': project, 'user_id': 'user',
             'consumer_generation': None if gen == 'null'
             else ctx.int('cgen%d' % consumer, 0)}, version='1.36')
-    return Req('claim%d(c%d)' % (n, consumer), fn, consumer=consumer)
+    return Req('claim%d(c%d%s)' % (n, consumer, '' if project == 'proj'
+                                   else ',' + project), fn,
+               consumer=consumer)
 
 
 def post_claim(n, consumers, target=1):
@@ -47,9 +49,21 @@ def post_claim(n, consumers, target=1):
     return Req('post%d' % n, fn)
 
 
-def make_family(name, reqs, max_preemptions=None):
+def make_family(name, reqs, max_preemptions=None, retry_count=None):
     def path(ctx):
         app.setup()
+        if retry_count is not None:
+            # [placement] allocation_conflict_retry_count (default 10): with
+            # 1, a single competing provider write exhausts the retries
+            app.set_conf('placement',
+                         allocation_conflict_retry_count=retry_count)
+        try:
+            return path_(ctx)
+        finally:
+            if retry_count is not None:
+                app.set_conf('placement', allocation_conflict_retry_count=10)
+
+    def path_(ctx):
         pre, results, final, sched, writes = conc.run_concurrent(
             ctx, build, reqs, max_preemptions=max_preemptions)
         for i, r in enumerate(results):
@@ -94,6 +108,12 @@ def families(tier):
         # two claims racing to create the same consumer
         make_family('new-claim(c7)+new-claim(c7)', [claim(1, 7, gen='null'),
                                                     claim(2, 7, gen='null')]),
+        # retries exhausted by one competing provider write
+        make_family('claim+put_traits/retry=1',
+                    [claim(1, 1), c05.put_traits(2)], retry_count=1),
+        # the same consumer: one of the two claims re-owns it
+        make_family('claim(c1,proj2)+claim(c1)', [
+            claim(1, 1, project='proj2'), claim(2, 1, target=2)]),
         # the same consumer: a claim racing a release
         make_family('claim(c1)+release(c1)', [claim(1, 1),
                                               c06.put_empty(2, 'int')]),
